@@ -1324,6 +1324,16 @@ func (ctx *RenderContext) getAttribute(obj interface{}, attr string) (interface{
 		objValue = objValue.Elem()
 	}
 
+	// Typed maps with string keys (map[string]string, map[string]int, ...) are read like
+	// map[string]interface{}: x.name is the value of that key
+	if objValue.Kind() == reflect.Map && objValue.Type().Key().Kind() == reflect.String {
+		value := objValue.MapIndex(reflect.ValueOf(attr).Convert(objValue.Type().Key()))
+		if value.IsValid() && value.CanInterface() {
+			return value.Interface(), nil
+		}
+		return nil, nil
+	}
+
 	// Only use caching for struct types
 	if objValue.Kind() != reflect.Struct {
 		// Instead of returning an error for non-struct types, return nil
